@@ -416,6 +416,24 @@ class C20(Prop):
 
 # ------------------------------------------------------------------ C13
 
+def slice_after_join_history(rng, hid):
+    """the source went through a merge() that unified two of its vertices (a right graph with one kid under two names:
+    not a tree, outside merge()'s contract and outside the model): the store has a vacant slot from then on.  The slice
+    oracle needs the implementation's snapshots only, so it keeps judging; the comparison with the model stops at the merge."""
+    cap = rng.pick([16, 32])
+    n = 3 + rng.below(5)
+    ops = ["NEW g %d" % cap] + ["ADD g %d" % v for v in range(n)]
+    ops += ["BIND g 0 1 %s" % gen.lab_alpha(0), "BIND g 0 2 %s" % gen.lab_alpha(1)]
+    for v in range(3, n):
+        ops.append("BIND g %d %d %s" % (rng.pick([1, 2] + list(range(2, v))), v, gen.lab_alpha(v)))
+    ops += ["NEW r %d" % cap, "ADD r 0", "ADD r 5", "BIND r 0 5 %s" % gen.lab_alpha(0), "BIND r 0 5 %s" % gen.lab_alpha(1),
+            "MERGE g r 0 0", "KEYS g", "SNAP g"]
+    for j, v in enumerate([0, 2] + [rng.below(n) for _ in range(3)]):
+        if v != 1:
+            ops += ["SLICE g %d s%d" % (v, j), "SNAP g"]
+    return History(hid, 16, ops, {"join": True})
+
+
 class C13(Prop):
     pid = "C13"
     ops = CORE_OPS | {"SLICE"}
@@ -450,6 +468,8 @@ class C13(Prop):
                     ops.append("SLICE g %d s%d %s" % (v, j, " ".join("%s:%s:%s" % e for e in sorted(rej))))
                 ops.append("SNAP g")
             hs.append(History("c13-%d" % i, N, ops))
+        for i in range(30 if tier == "quick" else 1500):
+            hs.append(slice_after_join_history(rng.fork(), "c13-join%d" % i))
         return hs
 
     def oracle(self, h, il):
@@ -651,6 +671,31 @@ def add_reads(h, il_probe=None):
     return h
 
 
+def dag_merge_history(rng, hid):
+    """a right graph in which one vertex is reached along two paths (not a tree: outside merge()'s documented contract and
+    outside every theorem, but inside the model unless the two paths end on different left vertices).  Correspondence only:
+    it executes the `mapped.get(to)` arm of merge_rec(), which no tree reaches."""
+    cap = rng.pick([16, 24])
+    labs = [gen.lab_alpha(i) for i in range(6)]
+    a, b, c, d = rng.pick(labs[:2]), rng.pick(labs[2:4]), labs[4], rng.pick([labs[4], labs[5]])
+    ops = ["NEW g %d" % cap, "ADD g 0"]
+    if rng.chance(1, 2):
+        ops += ["ADD g 7", "BIND g 0 7 %s" % a]
+        if rng.chance(1, 3):
+            ops += ["ADD g 8", "BIND g 7 8 %s" % c]
+            if rng.chance(1, 2):
+                # the left graph has both paths, ending on different vertices: merge() unifies them (join(), unmodelled)
+                ops += ["ADD g 9", "BIND g 0 9 %s" % b, "ADD g 10", "BIND g 9 10 %s" % d]
+    ops += ["NEW r %d" % cap, "ADD r 0", "ADD r 1", "ADD r 2", "ADD r 3", "BIND r 0 1 %s" % a, "BIND r 0 2 %s" % b,
+            "BIND r 1 3 %s" % c, "BIND r 2 3 %s" % d]
+    if rng.chance(1, 2):
+        ops.append("PUT r 3 %s" % rng.pick(MERGE_DATA))
+    if rng.chance(1, 3):
+        ops += ["ADD r 4", "BIND r 3 4 %s" % labs[0]]
+    ops += ["MERGE g r 0 0", "KEYS g", "KIDS g 0"]
+    return History(hid, 16, ops, {"dag": True})
+
+
 class MergeProp(Prop):
     ops = CORE_OPS | {"MERGE"}
 
@@ -672,9 +717,13 @@ class C12(MergeProp):
 
     def generate(self, rng, tier):
         n = 1500 if tier == "quick" else 80000
-        return [merge_history(rng.fork(), "c12-%d" % i, extras=(i % 4 != 0)) for i in range(n)]
+        hs = [merge_history(rng.fork(), "c12-%d" % i, extras=(i % 4 != 0)) for i in range(n)]
+        hs += [dag_merge_history(rng.fork(), "c12-dag%d" % i) for i in range(40 if tier == "quick" else 2000)]
+        return hs
 
     def oracle(self, h, il):
+        if h.meta.get("dag"):
+            return None       # not a tree: no claim, the correspondence alone is checked
         for i, t, res, g0, g1, r0, r1 in self.walk_merge(h, il):
             if r0 is None or res == "PANIC":
                 continue
@@ -683,9 +732,11 @@ class C12(MergeProp):
             if res == "ok" and missed:
                 return {"reason": "merge() returned Ok although present vertices %s of the right graph were never reached" % missed,
                         "index": i, "expected": "err " + ",".join(map(str, missed)), "observed": res}
-            if res == "ok" and g1 is not None and slot(g1, int(t[3]))["branch"] != 0:
+            closed = g0 is not None and all(slot(g0, w)["branch"] != 0 for u in present(g0) for _, w in slot(g0, u)["edges"])
+            if res == "ok" and g1 is not None and closed and slot(g0, int(t[3]))["branch"] != 0:
                 # "mapped onto a vertex of the left graph": the image of every right vertex (the end of its labelled
-                # path from `left`) is a present vertex afterwards
+                # path from `left`) is a present vertex afterwards (MergePresent.v; the left graph must not have edges
+                # into collected vertices, which a left tree of present vertices never has)
                 todo, seen = [(int(t[4]), int(t[3]))], set()
                 while todo:
                     rv, gv = todo.pop()
